@@ -8,6 +8,11 @@ CLAIMED = {
    note='Trusted: Coq kernel; extraction (ExtrOcamlBasic) and driver.ml; the correspondence generators; CPython int/bytes/struct semantics. No axioms (all theorems closed under the global context). Negative sends are judged by a watchdog subprocess.',
    technique='Coq proof by induction (model of the loops vs inductive LEB128 spec) + extracted-model differential correspondence',
    design='3/C03'),
+ 'C08': dict(
+   text='Machine-checked proof (Coq), universal over ALL version-record lists (hence all run-time extensions): the index map is injective, protocol_earlier is a strict total order on known numbers (irreflexive, transitive, trichotomous), earlier_eq/later/later_eq/in_range are consistent with it, every derived table is the order-preserving duplicate-free projection (first position, last value - OrderedDict semantics), re-initialising is idempotent in both modes, appended records never move an already-known protocol. On the records reified from the source on every run the kernel evaluates: model(initglobals)(records) = the seven tables observed in the module, and numeric order of all ordinary numbers. The hand model of initglobals and of the five predicates is tied to the code by differential runs: all pairs of the 369 known numbers (+unknown numbers -> KeyError), in_range over boundary (start,end) pairs x all versions, and generated extension histories (append/insert/remove/duplicate/legacy dict edits) in both initglobals modes comparing all seven tables.',
+   note='Trusted: Coq kernel (vm_compute for the finite checks); the reifier (prints what the imported module holds); extraction + driver; harness transliteration of the release-id regex (Unicode \\d); CPython dict/list semantics. No axioms.',
+   technique='Coq proof (induction over record lists; kernel evaluation over reified tables) + reifier + extracted-model differential correspondence',
+   design='3/C08'),
 }
 NOT_YET = 'check not built yet in this development (see DESIGN.md section 6 build order); not claimed'
 
